@@ -151,6 +151,18 @@ def run(case):
         viol.append(dict(key=f"{key}/{sub}", what=what, observed=obs, expected=exp, tol=TOL))
 
     mesh, twin = build(case)
+    if case["member"] == "renum":
+        # the mesh OBJECT of this member has a history: boundary regions were created on it while it held the cells in
+        # reversed order (and once more for a sub-set of the cells), then the cells were replaced in place -- nothing about
+        # the earlier connectivity may be remembered
+        target = mesh.cells.copy()
+        mesh = fem.Mesh(mesh.points.copy(), target[::-1].copy(), mesh.cell_type)
+        for kw_ in (dict(), dict(only_surface=False), dict(mask=np.arange(mesh.npoints) % 2 == 0)):
+            getattr(fem, BREGION[kind])(mesh, **kw_)
+        mesh.update(cells=np.roll(target, 1, axis=0))
+        getattr(fem, BREGION[kind])(mesh)
+        mesh.update(cells=target)
+        st["trans"] += 5
     dim = mesh.dim
     X, cells = mesh.points, mesh.cells
     el = getattr(fem.element, ELEMENT[kind])()
